@@ -12,16 +12,23 @@ stop: Impl.blackbox names the reason (the checks report it as a broken tie) and 
 in BLACK-BOX mode - the interface from the frozen registry, queries through aw_query.query only,
 no body record; the model is still compared on every text for which it asks for no recorded body
 outcome (see model_case / blackbox_skip)."""
+import contextlib
 import functools
 import importlib
 import inspect
 import json
+import logging
 import os
+import queue
 import signal
 import sys
+import tempfile
+import threading
+import time
 import traceback
 import types
 import typing
+import warnings
 from datetime import datetime, timedelta, timezone
 
 from .common import sx, VERIF
@@ -60,6 +67,118 @@ class HarnessBroken(Exception):
 
 class CaseTimeout(BaseException):
     pass
+
+
+def instant(x):
+    """An edge of the query period as sessions write it: an offset from T_START in microseconds, or an ISO 8601
+    text (datetime.fromisoformat: naive without an offset - the full range 0001-01-01 .. 9999-12-31 and every
+    UTC offset can be written this way)."""
+    if isinstance(x, str):
+        return datetime.fromisoformat(x)
+    return T_START + timedelta(microseconds=x)
+
+
+class _FormatSink(logging.Handler):
+    """What a host application's handler does with a record - format it - without writing anywhere.  Like the
+    stock handlers it never lets a formatting error reach the code that logged."""
+    errors = 0
+
+    def emit(self, record):
+        try:
+            record.getMessage()
+        except Exception:
+            _FormatSink.errors += 1
+
+
+# PROCESS-LEVEL SETTINGS a library may read.  None of them is an argument of aw_query.query and the property
+# mentions none of them: whatever a host process has set, a query text means the same and ends the same way.
+#   logging        level of the root logger and of the library's loggers, with a handler that formats every record
+#                  (the checks otherwise run under logging.disable(CRITICAL), where every isEnabledFor is False)
+#   recursionlimit sys.setrecursionlimit (lowered moderately: far above what the generated nesting depths need)
+#   warnings       category turned into an error by the warnings filters ("DeprecationWarning" | "Warning")
+#   tz             the process's local time zone (TZ + time.tzset)
+#   int_digits     sys.set_int_max_str_digits (the limit int() applies to digit strings; 0 = none; the model's
+#                  max_digits parameter follows it case by case)
+LIBRARY_LOGGERS = ("aw_query", "aw_query.query2", "aw_query.functions", "aw_datastore", "aw_core", "aw_transform")
+
+
+@contextlib.contextmanager
+def environment(env):
+    undo = []
+    try:
+        for key, val in sorted((env or {}).items()):
+            if key == "logging":
+                level = getattr(logging, val)
+                loggers = [logging.getLogger()] + [logging.getLogger(n) for n in LIBRARY_LOGGERS]
+                old = [(lg, lg.level) for lg in loggers]
+                disabled = logging.root.manager.disable
+                sink = _FormatSink()
+                logging.disable(logging.NOTSET)
+                for lg in loggers:
+                    lg.setLevel(level)
+                logging.getLogger().addHandler(sink)
+
+                def back(old=old, disabled=disabled, sink=sink):
+                    logging.getLogger().removeHandler(sink)
+                    for lg, lv in old:
+                        lg.setLevel(lv)
+                    logging.disable(disabled)
+                undo.append(back)
+            elif key == "recursionlimit":
+                undo.append(lambda old=sys.getrecursionlimit(): sys.setrecursionlimit(old))
+                sys.setrecursionlimit(val)
+            elif key == "warnings":
+                cm = warnings.catch_warnings()
+                cm.__enter__()
+                undo.append(lambda cm=cm: cm.__exit__(None, None, None))
+                warnings.simplefilter("error", {"DeprecationWarning": DeprecationWarning, "Warning": Warning}[val])
+            elif key == "tz":
+                def back(old=os.environ.get("TZ")):
+                    if old is None:
+                        os.environ.pop("TZ", None)
+                    else:
+                        os.environ["TZ"] = old
+                    time.tzset()
+                undo.append(back)
+                os.environ["TZ"] = val
+                time.tzset()
+            elif key == "int_digits":
+                if hasattr(sys, "set_int_max_str_digits"):
+                    undo.append(lambda old=sys.get_int_max_str_digits(): sys.set_int_max_str_digits(old))
+                    sys.set_int_max_str_digits(val)
+            else:
+                raise HarnessBroken(f"unknown process-level setting {key!r}")
+        yield
+    finally:
+        for u in reversed(undo):
+            u()
+
+
+class _Worker:
+    """A thread that stays alive between the queries it is handed (a server's worker pool): the harness's main
+    thread hands it one call at a time and waits for the answer with a time limit.  A daemon thread: one that
+    never comes back cannot keep the process alive (the checks also leave through os._exit when one hangs)."""
+
+    def __init__(self, name):
+        self.name = name
+        self.inq, self.outq = queue.Queue(), queue.Queue()
+        self.thread = threading.Thread(target=self._loop, name="c17-worker-" + name, daemon=True)
+        self.thread.start()
+
+    def _loop(self):
+        while True:
+            fn = self.inq.get()
+            try:
+                self.outq.put(("ok", fn()))
+            except BaseException as e:          # handed back to the main thread, which classifies it
+                self.outq.put(("exc", e))
+
+    def call(self, fn, timeout_s):
+        self.inq.put(fn)
+        try:
+            return self.outq.get(timeout=timeout_s)
+        except queue.Empty:
+            return ("hang", None)
 
 
 def cps(s):
@@ -101,9 +220,16 @@ class Impl:
             self.blackbox = "black-box mode forced by VERIF_C17_FORCE_BLACKBOX"
         self.ds = Datastore(MemoryStorage, testing=True)
         self.cur_ds = self.ds
-        self.contents = {}      # id(datastore) -> {bucket id: [(offset us, duration us, data)]}: what the HARNESS put there
-        self.hosts = {}         # id(datastore) -> {bucket id: hostname in the bucket's metadata}
+        # A STORE is what the buckets live in (a MemoryStorage object, a sqlite file); several Datastore objects may
+        # sit on one store.  What the harness put into a store is kept per store, never asked of the tree under test.
+        self.store = {id(self.ds): ("memory", id(self.ds))}     # id(datastore) -> key of its store
+        self.store_kind = {id(self.ds): "memory"}               # id(datastore) -> memory | sqlite | sqlite-file
+        self.sqlite_path = {}                                   # id(datastore) -> file of a sqlite-file store
+        self.contents = {}      # store key -> {bucket id: [(offset us, duration us, data)]}: what the HARNESS put there
+        self.hosts = {}         # store key -> {bucket id: hostname in the bucket's metadata}
         self.keep_ds = [self.ds]
+        self.workers = {}       # name -> _Worker (threads that stay alive between the queries they run)
+        self.hung = []          # names of worker threads that never came back from a query
         self.create_bucket(self.ds, "b1", B1_EVENTS)
         self.buckets = self.buckets_of(self.ds)
         self.calls = None
@@ -151,33 +277,67 @@ class Impl:
         return out
 
     # -- datastores and their buckets (sessions: creation / deletion / re-creation between queries) ----
-    def new_datastore(self, storage="memory"):
-        """A further Datastore alive beside the first one (two instances at once)."""
+    def new_datastore(self, storage="memory", shares=None):
+        """A further Datastore alive beside the first one (two instances at once).
+        storage: memory | sqlite (the storage's own testing file, lazy commit as shipped) | sqlite-file (a file of
+        its own, every write committed at once - what two connections to one file need to see each other's writes).
+        shares: a Datastore made earlier - the new one is a SECOND object over the same store (the same
+        MemoryStorage object handed out by the storage factory / a second sqlite connection to the same file)."""
         from aw_datastore import storages
-        cls = {"memory": storages.MemoryStorage, "sqlite": storages.SqliteStorage}[storage]
-        ds = self.Datastore(cls, testing=True)
+        if shares is not None:
+            kind = self.store_kind[id(shares)]
+            if kind == "memory":
+                shared = shares.storage_strategy
+                ds = self.Datastore(lambda testing: shared, testing=True)
+            elif kind == "sqlite-file":
+                ds = self.Datastore(storages.SqliteStorage, testing=True, filepath=self.sqlite_path[id(shares)],
+                                    enable_lazy_commit=False)
+                self.sqlite_path[id(ds)] = self.sqlite_path[id(shares)]
+            else:
+                raise HarnessBroken("only memory and sqlite-file stores are shared between Datastore objects")
+            self.store[id(ds)], self.store_kind[id(ds)] = self.store[id(shares)], kind
+            self.keep_ds.append(ds)
+            return ds
+        if storage == "sqlite-file":
+            d = os.path.dirname(os.environ.get("XDG_DATA_HOME", ""))      # the private temp dir of this process
+            fd, path = tempfile.mkstemp(prefix="c17-shared-", suffix=".db", dir=d if os.path.isdir(d) else None)
+            os.close(fd)
+            os.unlink(path)
+            ds = self.Datastore(storages.SqliteStorage, testing=True, filepath=path, enable_lazy_commit=False)
+            self.sqlite_path[id(ds)] = path
+        else:
+            cls = {"memory": storages.MemoryStorage, "sqlite": storages.SqliteStorage}[storage]
+            ds = self.Datastore(cls, testing=True)
+        self.store[id(ds)], self.store_kind[id(ds)] = (storage, id(ds)), storage
         self.keep_ds.append(ds)
         for b in list(ds.buckets()):        # a file left over by an earlier instance of the same storage
             ds.delete_bucket(b)
         return ds
 
+    def contents_of(self, ds):
+        return self.contents.setdefault(self.store[id(ds)], {})
+
+    def hosts_of(self, ds):
+        return self.hosts.setdefault(self.store[id(ds)], {})
+
     def create_bucket(self, ds, bid, events=(), hostname="h1"):
         """events: (offset from T_START in us, duration in us, data) - recorded on the harness side, so
         that what a bucket holds (and which buckets exist) never has to be asked of the tree under test."""
         b = ds.create_bucket(bid, type="test", client="c", hostname=hostname)
-        self.hosts.setdefault(id(ds), {})[bid] = hostname
+        self.hosts_of(ds)[bid] = hostname
         if events:
             b.insert([self.Event(timestamp=T_START + timedelta(microseconds=o), duration=timedelta(microseconds=d),
                                  data=dict(data)) for o, d, data in events])
-        self.contents.setdefault(id(ds), {})[bid] = list(events)
+        self.contents_of(ds)[bid] = list(events)
 
     def delete_bucket(self, ds, bid):
         ds.delete_bucket(bid)
-        del self.contents[id(ds)][bid]
-        self.hosts[id(ds)].pop(bid, None)
+        del self.contents_of(ds)[bid]
+        self.hosts_of(ds).pop(bid, None)
 
     def buckets_of(self, ds):
-        return sorted(self.contents.get(id(ds), {}))
+        """The bucket ids existing in the STORE the datastore object sits on (whichever object put them there)."""
+        return sorted(self.contents_of(ds))
 
     # -- the registry -----------------------------------------------------------------
     @staticmethod
@@ -556,39 +716,65 @@ class Impl:
             tb = tb.tb_next
         return False
 
-    def run(self, text, timeout_s=10, ds=None, ctx=None):
-        """-> dict(outcome=('value', wire) | ('error', class), calls=[...], exc=exception or None);
+    MAX_HANGS = 2       # after that many worker threads never came back, queries run on the main thread only
+
+    def run(self, text, timeout_s=10, ds=None, ctx=None, thread=None, env=None):
+        """-> dict(outcome=('value', wire) | ('error', class) | ('timeout', None) | ('recursion', None), calls=[...],
+        exc=exception or None);
         ds: the datastore the query runs against (default: the first one); ctx: (query name, start, end of the
-        query period as offsets from T_START in us) - default (QNAME, T_START, T_END)"""
+        query period, each edge an offset from T_START in us or an ISO 8601 text, see `instant`) - default
+        (QNAME, T_START, T_END); thread: name of the worker thread the query runs on (None = the main thread; a
+        worker stays alive between its queries, the main thread waits at most timeout_s for it); env: process-level
+        settings in force while the query runs (see `environment`)."""
         self.calls = None if self.blackbox else []
         self.cur_ds = ds if ds is not None else self.ds
         qname, start, end = QNAME, T_START, T_END
         if ctx:
-            qname, start, end = ctx[0], T_START + timedelta(microseconds=ctx[1]), T_START + timedelta(microseconds=ctx[2])
+            qname, start, end = ctx[0], instant(ctx[1]), instant(ctx[2])
+        if thread is not None and len(self.hung) >= self.MAX_HANGS:
+            thread = None
 
         def on_alarm(signum, frame):
             raise CaseTimeout()
 
-        old = signal.signal(signal.SIGALRM, on_alarm)
-        signal.alarm(timeout_s)
         exc = None
-        try:
-            try:
-                v = self.Q.query(qname, text, start, end, self.cur_ds)
-                out = ("value", v)
-            except CaseTimeout:
-                out = ("timeout", None)
-            except RecursionError as e:
-                out = ("recursion", None)
-                exc = e
-            except Exception as e:
-                out = ("error", self.classify_exc(e))
-                exc = e
-        finally:
-            signal.alarm(0)
-            signal.signal(signal.SIGALRM, old)
+        with environment(env):
+            max_digits = sys.get_int_max_str_digits() if hasattr(sys, "get_int_max_str_digits") else 0
+            if thread is None:
+                old = signal.signal(signal.SIGALRM, on_alarm)
+                signal.alarm(timeout_s)
+                try:
+                    try:
+                        got = ("ok", self.Q.query(qname, text, start, end, self.cur_ds))
+                    except CaseTimeout:
+                        got = ("hang", None)
+                    except Exception as e:
+                        got = ("exc", e)
+                finally:
+                    signal.alarm(0)
+                    signal.signal(signal.SIGALRM, old)
+            else:
+                w = self.workers.get(thread)
+                if w is None:
+                    w = self.workers[thread] = _Worker(thread)
+                cur = self.cur_ds
+                got = w.call(lambda: self.Q.query(qname, text, start, end, cur), timeout_s)
+                if got[0] == "hang":        # the thread is lost; a later query under this name gets a new one
+                    self.hung.append(thread)
+                    del self.workers[thread]
+        if got[0] == "ok":
+            out = ("value", got[1])
+        elif got[0] == "hang":
+            out = ("timeout", None)
+        elif isinstance(got[1], RecursionError):
+            out, exc = ("recursion", None), got[1]
+        elif isinstance(got[1], Exception):
+            out, exc = ("error", self.classify_exc(got[1])), got[1]
+        else:
+            raise got[1]
         calls, self.calls = self.calls, None
-        return {"outcome": out, "calls": calls, "exc": exc, "ctx": (qname, start.isoformat(), end.isoformat())}
+        return {"outcome": out, "calls": calls, "exc": exc, "ctx": (qname, start.isoformat(), end.isoformat()),
+                "max_digits": max_digits, "thread": thread}
 
     # -- the model's side ---------------------------------------------------------------
     def table_wire(self):
@@ -639,7 +825,7 @@ class Impl:
         qname, start, end = r.get("ctx") or (QNAME, T_START.isoformat(), T_END.isoformat())
         if getattr(self, "_table_sx", None) is None:        # the same for every case: encoded once
             self._table_sx = sx(self.table_wire())
-        case = "(" + " ".join(["0", self._table_sx, sx(self.max_digits), sx([cps(b) for b in buckets]), sx(script),
+        case = "(" + " ".join(["0", self._table_sx, sx(r.get("max_digits", self.max_digits)), sx([cps(b) for b in buckets]), sx(script),
                                sx(cps(qname)), sx(cps(start)), sx(cps(end)), sx(cps(text))]) + ")"
         return case, log, want
 
